@@ -178,6 +178,8 @@ def placements(ctx, vectors):
         for k, v in enumerate(coal + tails):
             l = LAN("10.0.0.1", 6444, 1)
             orig, q = bytes(v["orig"]), bytes(v["q"])
+            if v["mut"][0] == "trunc" and (q + orig)[:len(orig)] == orig:
+                continue          # the bytes that follow happen to complete the cut-off packet exactly (its last byte = 0x5A): the stream then CONTAINS the authentic packet
             if k >= len(coal) or (k % 2 == 1 and q[:2] == b"\x5a\x5a"):
                 # (F14: bytes behind a complete packet in the same segment that do not begin with the start marker are line noise to the framer and
                 #  are dropped, as upstream always did - so a packet whose marker was altered is only placed IN FRONT of an authentic one)
